@@ -715,6 +715,9 @@ def _keys_deep(f, t):
             k = K._const_key(x[2][1])
             if k:
                 keys.add(k)
+            tail = x[1].rsplit("::", 1)[-1]
+            if tail in ("k", "x", "y", "lat", "lon") and x[2][1][0] == "const" and isinstance(x[2][1][2], int):
+                keys.add("%s_%d" % (tail, x[2][1][2]))
         if x[0] == "loopphi" and x[1] not in seen:
             seen.add(x[1])
             d = f.phi_def(x)
